@@ -8,6 +8,7 @@ R3  case-insensitivity on both sides (to_lower_cppstr in add_keyword, key_lookup
 R4  CRLF: configuration/state text lines are read through colvarmodule::getline
 R5  typed extraction failures raise
 R7  keywords looked up in a text that is not keyword-checked are removed from the registry before the function returns
+R8  every rejection of a configuration stage clears the module-level parser
 R6  end-of-text tests of the scanners are satisfiable: a cursor that is only ever set to positions inside the text it
     scans or to the size of that text is compared with that size by an operator that holds at equality
 """
@@ -658,7 +659,46 @@ def r7(F, rep):
         raise AnalysisBroken("C09-R7: %d lookups followed by an explicit registry discharge found (state header: step, version, units expected)" % n)
 
 
+def r8(F, rep):
+    rep.rule("C09-R8", "a rejected configuration leaves the module parser clean: in colvarmodule::catch_input_errors() -- the gate "
+                       "every parsing stage of parse_config() goes through -- every return of a value that may be non-zero is "
+                       "dominated by parse->clear(); only the literal COLVARS_OK is returned without it (a stage can report "
+                       "through cvm::error() and still return COLVARS_OK)")
+    f = F.one("colvarmodule::catch_input_errors")
+    clears = [c for c in X.calls(f) if X.callee_name(c) == "clear" and X.receiver(c) is not None and "parse" in X.key(X.receiver(c), f)]
+    rets = [r for r in f.walk() if r["k"] == "ReturnStmt" and X.kids(r)]
+    if not rets:
+        raise AnalysisBroken("C09-R8: no return statement in catch_input_errors")
+    n = 0
+    for r in rets:
+        v = X.kids(r)[0]
+        lit = C._lit(X.strip(v))
+        if lit == 0:
+            continue
+        n += 1
+        ok = bool(clears) and any(f.cfg.dominates(c, r) for c in clears)
+        rep.add("C09-R8", "catch_input_errors|return %s" % X.re_strip(X.key(v, f))[:40], f.loc(r), "catch_input_errors() returns `%s` %s" % (
+            X.text(v, f)[:40], "after parse->clear()" if ok else "on a path that does NOT pass through parse->clear()"), ok,
+            detail="the value ranges recorded while reading the rejected text are erased from the next configuration, and its keywords stay allowed", func=f.q)
+    if n < 1:
+        rep.add("C09-R8", "catch_input_errors|returns", f.loc(), "catch_input_errors() never returns an error value", False, func=f.q)
+    # and every stage of parse_config goes through the gate
+    pc = F.one("colvarmodule::parse_config")
+    # stages applied to the text the user supplied (the function's parameter); the replay of auto-generated text further
+    # down is internal and is not part of this obligation
+    pd = pc.params[0]["d"] if pc.params else None
+    stages = [c for c in X.calls(pc) if ((c.get("cq") or "").startswith("colvarmodule::parse_") or X.callee_name(c) == CHECK_PRIM) and
+              X.call_args(c) and X.strip(X.call_args(c)[0])["k"] == "DeclRefExpr" and X.strip(X.call_args(c)[0]).get("d") == pd]
+    for c in stages:
+        gated = any(a["k"] in ("CallExpr", "CXXMemberCallExpr") and X.callee_name(a) == "catch_input_errors" for a in pc.ancestors(c))
+        rep.add("C09-R8", "parse_config|gate|%s@%s" % (X.callee_name(c), X.re_strip(X.key(X.call_args(c)[0], pc))[:20] if X.call_args(c) else ""), pc.loc(c),
+                "parse_config(): the result of %s() goes through catch_input_errors(): %s" % (X.callee_name(c), gated), gated, func=pc.q)
+    if len(stages) < 4:
+        raise AnalysisBroken("C09-R8: only %d parsing stages found in parse_config" % len(stages))
+
+
 def run(F, rep, tier):
+    r8(F, rep)
     R1(F, rep).run()
     r2(F, rep)
     r3(F, rep)
